@@ -120,6 +120,7 @@ shape!(some_u8, 10, 2, |x, y, z| [SOME, U8, x],
         check_serialized(&encn, 1, |s: Serializer| s.serialize::<tags::Option<tags::U8>>(None::<u8>));
     });
 
+#[cfg(not(verif_quick))]
 shape!(some_some_none, 10, 3, |x, y, z| [SOME, SOME, NONE],
     value: |v: &Value| matches!(v, Value::Some(a) if matches!(&**a, Value::Some(b) if matches!(&**b, Value::None))),
     ser: [|s: Serializer| s.serialize::<tags::Option<tags::Option<tags::Option<tags::U8>>>>(Some(Some(None::<u8>)))]);
@@ -127,6 +128,7 @@ shape!(some_some_none, 10, 3, |x, y, z| [SOME, SOME, NONE],
 // short id form: the id byte is a literal - a symbolic first varint byte makes the length of the
 // varint, and with it every later position, symbolic for CBMC (an assumption does not prune the
 // long-form branch during symbolic execution)
+#[cfg(not(verif_quick))]
 shape!(enum_short_id, 10, 2, |x, y, z| [ENUM, 7, U8, x],
     value: |v: &Value| matches!(v, Value::Enum(e) if e.id == 7 && is_u8(&e.value, x)),
     ser: [|s: Serializer| s.serialize_enum::<tags::U8>(7u32, x)],
@@ -188,6 +190,7 @@ shape!(vec1_two, 12, 2, |x, y, z| [VEC1, 2, U8, x, U8, y],
         assert!(s2.finish() == Err(SerializeError::TooFewElements));
     });
 
+#[cfg(not(verif_quick))]
 shape!(vec1_empty, 10, 1, |x, y, z| [VEC1, 0],
     value: |v: &Value| matches!(v, Value::Vec(e) if e.is_empty()));
 
@@ -208,10 +211,12 @@ mod vec2_nested {
     include!("/verif/.cache/replay/verif__shapes_basic__vec2_nested.rs");
 }
 
+#[cfg(not(verif_quick))]
 shape!(vec1_nested, 12, 3, |x, y, z| [VEC1, 1, VEC1, 1, U8, x],
     value: |v: &Value| matches!(v, Value::Vec(o) if o.len() == 1 && matches!(&o[0], Value::Vec(i) if i.len() == 1 && is_u8(&i[0], x))));
 
 // mixed epochs nest as well
+#[cfg(not(verif_quick))]
 shape!(vec_mixed_nested, 12, 4, |x, y, z| [VEC1, 1, VEC2, SOME, SOME, U8, x, NONE]);
 
 shape!(bytes2_chunks, 12, 1, |x, y, z| [BYTES2, 2, x, y, 1, z, 0],
@@ -224,6 +229,7 @@ shape!(bytes2_chunks, 12, 1, |x, y, z| [BYTES2, 2, x, y, 1, z, 0],
         s.finish()
     }]);
 
+#[cfg(not(verif_quick))]
 shape!(bytes2_single, 12, 1, |x, y, z| [BYTES2, 3, x, y, z, 0],
     value: |v: &Value| matches!(v, Value::Bytes(b) if b.0.len() == 3 && b.0[0] == x && b.0[1] == y && b.0[2] == z),
     ser: [|s: Serializer| s.serialize_byte_slice2(&[x, y, z])],
